@@ -83,8 +83,8 @@ def cases(run):
         f"<= {k} blocks on positions 0..{g}" for k, g in scopes) +
         " x strands + - . x 5 nucleotide alphabets (one random parent sequence per layout and alphabet): extract, "
         "reverse_strand, every split point; slices: every (start, stop) in {None, -n-2..n+2}^2 x step in {None,1,2,-1,0} and "
-        "every int index in [-n-2, n+2] on all layouts with <= 2 blocks on positions 0..3 (both strands); append: all "
-        "pairs of sub-slices of those objects")
+        "every int index in [-n-2, n+2] on all layouts with <= 2 blocks on positions 0..%d (both strands); append: "
+        "pairs of sub-slices of those objects (all pairs in the thorough tier)" % (2 if quick else 3))
     seen = set()
     layouts = []
     for k, g in scopes:
@@ -110,6 +110,8 @@ def cases(run):
                     if st != ".":
                         n = loc_len(blocks)
                         for k in range(-1, n + 2):
+                            if quick and alph != "NT_EXTENDED_GAPPED" and rng.random() < 0.6:
+                                continue
                             yield f"split {alph} ~{p} {loc} {k}"
     # other alphabets and malformed locations (model correspondence; the spec is n/a or demands refusal)
     for alph in ("AA", "GENERIC"):
@@ -123,7 +125,8 @@ def cases(run):
         yield f"seqprog NT_STRICT ~ACGTACGT {loc} 0"
     run.exhaustive = True
     # 2 sequence objects: all slice bounds / indices on short sequences ---------------------------------
-    small = [b for b in layouts if len(b) <= 2 and max(e for _, e in b) <= 3]
+    small_hi = 2 if quick else 3
+    small = [b for b in layouts if len(b) <= 2 and max(e for _, e in b) <= small_hi]
     steps_vals = [None, 1, 2, -1, 0]
     for blocks in small:
         n = loc_len(blocks)
@@ -134,7 +137,7 @@ def cases(run):
             bounds = [None] + list(range(-n - 2, n + 3))
             for a in bounds:
                 for b in bounds:
-                    for c in (steps_vals if (quick and rng.random() < 0.25) or not quick else [None]):
+                    for c in (steps_vals if (quick and rng.random() < 0.15) or not quick else [None]):
                         yield f"seqprog {alph} ~{p} {loc} {enc_prog([('sl', a, b, c)])}"
             for i in range(-n - 2, n + 3):
                 yield f"seqprog {alph} ~{p} {loc} {enc_prog([('ix', i)])}"
